@@ -74,6 +74,10 @@ def run(chk):
     p = core.load_program("all")
     chk.configs = ["all-features"]
     chk.explanation = __doc__
+    # shared clause (C13 R4): a request decoded from the wire whose options map omits `up` must ask for presence —
+    # the absent-member defaults of the CTAP options (struct Default and the derived decoder's) are part of consent
+    from .framework import borrow
+    borrow(chk, "C13", ["R4|Options|serde-defaults", "R4|Options::default"], "C04: user presence is required unless the request says otherwise explicitly")
     S = summary.Summaries(p)
     N = normal.Normalizer(p, S)
     mc = ceremony(p, "make_credential")
